@@ -466,3 +466,35 @@ Definition one_sweeper (f : nat -> thread) : Prop :=
 (* a sweeper that has not collected anything yet (every thread starts like that) *)
 Definition sweeper_idle (th : thread) : bool :=
   match th with TSweeper (S1 _ _) | TSweeper (S2 _ _) => false | _ => true end.
+
+(* ---- the serial specification of ingest (used by the serializability theorem) ---- *)
+
+(* worker ids in the order of their track sections, newest first *)
+Fixpoint ttids (tr : list event) : list nat :=
+  match tr with
+  | [] => []
+  | ETrack _ w :: r => w :: ttids r
+  | EBump _ w :: r => w :: ttids r
+  | _ :: r => ttids r
+  end.
+
+Definition dmsg : msg := mkMsg 0 0 false false [] [] false false.
+Definition mof (ms : list msg) (t : nat) : msg := nth t ms dmsg.
+Definition cov0 (m : msg) : bool := at_pol (m_cov_ok m) 0.
+
+(* what a station that handles one registration after the other does: the first registration of a
+   key owns it, later ones are counted as duplicates *)
+Definition sstate := nat -> option (msg * nat).
+Definition spec_step (s : sstate) (m : msg) : sstate :=
+  match s (m_key m) with
+  | Some (om, cnt) => upd s (m_key m) (Some (om, S cnt))
+  | None => upd s (m_key m) (Some (m, 1))
+  end.
+(* messages newest first *)
+Fixpoint spec_nf (l : list msg) : sstate :=
+  match l with [] => fun _ => None | m :: r => spec_step (spec_nf r) m end.
+Definition spec_view (s : sstate) (k : nat) : option (bool * bool * nat * nat) :=
+  match s k with
+  | Some (om, cnt) => Some (admitted om, cov0 om, m_covert om, cnt)
+  | None => None
+  end.
